@@ -206,4 +206,52 @@ theorem syncIndices_eq_spec_partial {H cfg vals} (mixes : Nat → ByteArray) (sl
   rw [← Zrnt.Proofs.Committees.activeIndices_eq_spec, ← getSeed_eq_spec]
 
 
+/-- **the proposer stored for every slot of the epoch is the specification's** `get_beacon_proposer_index` of the
+state at that slot (same registry and randao history): if `ComputeProposers` returns, then for each slot
+`s` of the epoch its entry is the index the specification's loop stops at. (Partial for the reason given at
+`proposer_eq_spec_partial`: `ComputeProposers` can refuse where the specification keeps searching.) -/
+theorem proposers_eq_spec_partial {H cfg vals} (mixes : Nat → ByteArray) (epoch : Nat) (hspe : 0 < cfg.SLOTS_PER_EPOCH)
+    (ok : SampleOK H cfg vals (activeIndices vals epoch)) (ps : List Nat)
+    (h : computeProposers H cfg vals mixes epoch (activeIndices vals epoch) = .ok ps) (extraFuel : Nat) :
+    ps.length = cfg.SLOTS_PER_EPOCH ∧
+    ∀ s (_ : s < cfg.SLOTS_PER_EPOCH) (hp : s < ps.length),
+      Spec.get_beacon_proposer_index H cfg vals.toList mixes (epoch * cfg.SLOTS_PER_EPOCH + s) (32000 + extraFuel) = .ok ps[s] := by
+  have hn0 : ¬ (activeIndices vals epoch).size = 0 := by have := ok.nonempty; omega
+  unfold computeProposers at h
+  simp only [hn0, if_false] at h
+  obtain ⟨hlen, hget⟩ := mapM_ok_getElem _ _ _ h
+  rw [List.length_range] at hlen
+  refine ⟨hlen, fun s hs hp => ?_⟩
+  have := hget s (by simpa using hs) hp
+  simp only [List.getElem_range] at this
+  unfold Spec.get_beacon_proposer_index
+  have e1 : (epoch * cfg.SLOTS_PER_EPOCH + s) / cfg.SLOTS_PER_EPOCH = epoch := by
+    rw [Nat.mul_comm, Nat.mul_add_div hspe, Nat.div_eq_of_lt hs, Nat.add_zero]
+  simp only [e1]
+  rw [← Zrnt.Proofs.Committees.activeIndices_eq_spec, ← getSeed_eq_spec, uintToBytes8]
+  rcases computeProposerIndex_spec ok (H (getSeed H cfg mixes epoch DOMAIN_BEACON_PROPOSER ++ putUint64 (epoch * cfg.SLOTS_PER_EPOCH + s))) extraFuel with
+    ⟨c, hm, hsp⟩ | ⟨hm, _⟩
+  · rw [hm] at this
+    injection this with this
+    rw [← this]; exact hsp
+  · rw [hm] at this; cases this
+
+/-! ## non-vacuity: the hypotheses are satisfiable -/
+
+/-- a small configuration (the "minimal" preset's committee constants) -/
+def cfgMin : Cfg := ⟨8, 4, 4, 10, 64, 1, 32000000000, 32⟩
+
+/-- three validators, two of them active at epoch 5 -/
+def vals3 : Array Val := #[⟨0, 2 ^ 64 - 1, 32000000000⟩, ⟨7, 2 ^ 64 - 1, 31000000000⟩, ⟨0, 9, 0⟩]
+
+def zeroHash : ByteArray → ByteArray := fun _ => ⟨Array.replicate 32 0⟩
+
+example : CfgOK cfgMin := ⟨by decide, by decide, by decide, by decide, by decide⟩
+example : activeIndices vals3 5 = #[0, 2] := by decide
+example : SampleOK zeroHash cfgMin vals3 (activeIndices vals3 5) :=
+  ⟨fun _ => rfl, by decide, by decide, by decide, by decide⟩
+example : (goSpec cfgMin).SLOTS_PER_EPOCH ≠ 0 ∧ (goSpec cfgMin).TARGET_COMMITTEE_SIZE ≠ 0 := by decide
+-- 37 validators in 8·1 committees: sizes 4 and 5 only, boundaries 0 … 37
+example : (List.range 9).map (bound 37 8) = [0, 4, 9, 13, 18, 23, 27, 32, 37] := by decide
+
 end Zrnt.Proofs.C07
